@@ -1,6 +1,7 @@
 import Dyce.OrderStatProofs
 import Dyce.HistProofs
 import Dyce.Props.C03
+import Dyce.AppearProofs
 import Mathlib.Tactic.Ring
 /-!
 # C09 — Closed-form counting shortcuts agree with enumeration
@@ -20,7 +21,7 @@ import Mathlib.Tactic.Ring
 | `exactly_k_times_in_n` = number of rolls with exactly `k` dice showing `o` = count of `k` in `n@(h.eq(o))` | `C09_exactly_k`, `C09_exactly_k_eq_matmul` |
 | sum over positions | `C09_sum_positions` |
 | call order on a shared object never matters | C13 (`memo_transparent`, key = `n`) |
-| `appearances_in_rolls` | model + correspondence (theorem pending, see DESIGN.md) |
+| `appearances_in_rolls(o)` = histogram over all rolls of how many dice show `o` | `C09_appearances` |
 -/
 namespace Dyce
 open List
@@ -73,6 +74,12 @@ theorem C09_exactly_k (h : Hist α) (hd : (h.map Prod.fst).Nodup) (o : α) (n k 
     exactlyK h o n k = wsum (tuples h n) (fun t => if t.count o = k then 1 else 0) :=
   exactlyK_correct h hd o n k hk
 
+/-- `p.appearances_in_rolls(o)`: per-group binomial histograms, summed = brute force over the pool -/
+theorem C09_appearances (dice : List (Hist α)) (hne : dice ≠ [])
+    (hd : ∀ h ∈ dice, (h.map Prod.fst).Nodup) (o : α) (k : Nat) :
+    countOf k (appearances dice o) = wsum (poolTuples dice) (fun t => if t.count o = k then 1 else 0) :=
+  appearances_correct dice hne hd o k
+
 /-- `exactly_k_times_in_n(o, n, k)` is the count of `k` in `n @ h.eq(o)` -/
 theorem C09_exactly_k_eq_matmul (h : Hist α) (hd : (h.map Prod.fst).Nodup) (o : α) (n k : Nat)
     (hn : 0 < n) (hk : k ≤ n) :
@@ -108,20 +115,6 @@ theorem sum_positions_pointwise (t : List α) (f : α) (n : Nat) (hn : t.length 
     by_cases h : a = f
     · simp [h]; omega
     · simp [h]
-
-theorem wsum_list_sum {β ι} (l : List (β × Nat)) (s : List ι) (g : ι → β → Nat) :
-    wsum l (fun b => (s.map fun i => g i b).sum) = (s.map fun i => wsum l (g i)).sum := by
-  induction s with
-  | nil => simp [wsum]
-  | cons i s ih =>
-    simp only [List.map_cons, List.sum_cons]
-    rw [wsum_add, ih]
-
-theorem wsum_mul_right {β} (l : List (β × Nat)) (g : β → Nat) (c : Nat) :
-    wsum l (fun b => g b * c) = wsum l g * c := by
-  induction l with
-  | nil => simp [wsum]
-  | cons e l ih => simp only [wsum_cons, ih]; ring
 
 theorem wsum_constH {β} (l : List (β × Nat)) (c : Nat) : wsum l (fun _ => c) = total l * c := by
   induction l with
